@@ -45,7 +45,9 @@ const (
 	bufProtack = 11
 )
 
-func hdr(typ, status byte, channel int, body []byte) []byte { return hx.Packet(typ, status, channel, 0, body) }
+func hdr(typ, status byte, channel int, body []byte) []byte {
+	return hx.Packet(typ, status, channel, 0, body)
+}
 
 // chanID reads the id of a library channel from the packets it sends.
 type sent struct {
@@ -185,7 +187,11 @@ func checkOutgoing(pipe *vrt.Pipe, w *world) {
 func body(c Case, w *world) func() {
 	return func() {
 		*w = world{facts: map[string]string{}}
-		conn, pipe, err := hx.NewConn(context.Background(), 100, 50)
+		qsize := 100
+		if c.Scenario == "S5-slow-consumer-small-queue" {
+			qsize = 2 // Info.ChannelPackageQueueSize: the reader has to wait for the consumer
+		}
+		conn, pipe, err := hx.NewConn(context.Background(), qsize, 50)
 		if err != nil {
 			w.bad("C12|setup", err.Error())
 			return
@@ -292,6 +298,65 @@ func body(c Case, w *world) func() {
 			}
 			w.facts["late-packet"] = "connection-error"
 			checkOutgoing(pipe, w)
+		case "S5-slow-consumer-small-queue":
+			// the server sends 4+N packets of two packages each to channel b (package queue of 2) before
+			// its consumer starts, then one packet to channel a; b's consumer must see its packages in
+			// the order sent, a's consumer its own
+			n := 4 + c.N
+			vrt.GoNamed("peer", func() {
+				sentB := false
+				for {
+					wr := pipe.PeerRecv()
+					if wr == nil {
+						return
+					}
+					if len(wr) < 8 {
+						continue
+					}
+					typ, channel := wr[0], int(binary.BigEndian.Uint16(wr[4:]))
+					if typ == bufSetup {
+						pipe.PeerSend(hdr(bufProtack, hx.EOM, channel, nil))
+						continue
+					}
+					if wr[1]&hx.EOM != 0 && !sentB {
+						sentB = true
+						for i := 0; i < n; i++ {
+							st := byte(0)
+							if i == n-1 {
+								st = hx.EOM
+							}
+							body := append(tdspkg.ReturnStatus{Value: int32(1000 + 2*i)}.Encode(), tdspkg.ReturnStatus{Value: int32(1001 + 2*i)}.Encode()...)
+							pipe.PeerSend(hdr(4, st, channel, body))
+						}
+					}
+				}
+			})
+			a, ida := newCh("a")
+			b, idb := newCh("b")
+			if a == nil || b == nil {
+				return
+			}
+			_, _ = ida, idb
+			ctx, cancel := vrt.WithTimeout(context.Background(), 10*time.Minute)
+			defer cancel()
+			if err := b.SendPackage(ctx, &tds.LanguagePackage{Cmd: "select many"}); err != nil {
+				w.bad("C12|send-failed", err.Error())
+				return
+			}
+			vrt.Settle() // the slow consumer: everything that fits has arrived, the reader waits for room
+			for i := 0; i < 2*n; i++ {
+				p, err := b.NextPackage(ctx, true)
+				if err != nil {
+					w.bad("C12|wrong-delivery", fmt.Sprintf("channel b: package %d of %d: error %v", i, 2*n, err))
+					return
+				}
+				rsp, ok := p.(*tds.ReturnStatusPackage)
+				if !ok || int(rsp.ReturnValue) != 1000+i {
+					w.bad("C12|wrong-delivery", fmt.Sprintf("channel b: package %d is %v, the server sent RETURNSTATUS %d at that position", i, p, 1000+i))
+					return
+				}
+			}
+			w.facts["delivered"] = fmt.Sprint(2 * n)
 		case "S4-unknown-channel-packet":
 			vrt.GoNamed("peer", func() {
 				peer(pipe, func(channel int, pipe *vrt.Pipe) {
@@ -465,7 +530,8 @@ func main() {
 		bound = 3
 	}
 	cases := []Case{{Scenario: "S1-concurrent-newchannel", N: 2}, {Scenario: "S1-concurrent-newchannel", N: 3}, {Scenario: "S2-two-channels"}, {Scenario: "S3-close-while-other-in-use"},
-		{Scenario: "S3-close-while-other-in-use", N: 1}, {Scenario: "S4-unknown-channel-packet"}, {Scenario: "S4-unknown-channel-packet", N: 1}}
+		{Scenario: "S3-close-while-other-in-use", N: 1}, {Scenario: "S4-unknown-channel-packet"}, {Scenario: "S4-unknown-channel-packet", N: 1},
+		{Scenario: "S5-slow-consumer-small-queue"}, {Scenario: "S5-slow-consumer-small-queue", N: 2}}
 	for _, c := range cases {
 		if h.Expired("scenario list cut short") {
 			break
